@@ -31,3 +31,37 @@ package cpualt
 //@   loop 1 decreases (end>>4) + 1 - phi1
 //@   loop 1 names a
 //@   loop 1 modifies b.Write
+
+// Plain accessors (not used by the CPU itself): every table index is in bounds when all touched
+// addresses are below 2^24; the table, M and the CPU are not written (the attached function is an
+// unknown callee).
+
+//@ func (*Bus).Read8
+//@   params b addr
+//@   property C08
+//@   requires addr < 0x1000000
+
+//@ func (*Bus).Read16
+//@   params b addr
+//@   property C08
+//@   requires addr < 0xffffff
+
+//@ func (*Bus).Read24
+//@   params b addr
+//@   property C08
+//@   requires addr < 0xfffffe
+
+//@ func (*Bus).Write8
+//@   params b addr value
+//@   property C08
+//@   requires addr < 0x1000000
+
+//@ func (*Bus).Write16
+//@   params b addr value
+//@   property C08
+//@   requires addr < 0xffffff
+
+//@ func (*Bus).Write24
+//@   params b addr value
+//@   property C08
+//@   requires addr < 0xfffffe
